@@ -48,11 +48,11 @@ Qed.
 
 Section JsonInd.
   Variable P : json -> Prop.
-  Hypothesis Hnum : forall q, P (JNum q).
-  Hypothesis Hbool : forall b, P (JBool b).
-  Hypothesis Hstr : forall s, P (JStr s).
-  Hypothesis Hobj : forall fs, Forall (fun kv => P (snd kv)) fs -> P (JObj fs).
-  Hypothesis Harr : forall es, Forall P es -> P (JArr es).
+  Variable Hnum : forall q, P (JNum q).
+  Variable Hbool : forall b, P (JBool b).
+  Variable Hstr : forall s, P (JStr s).
+  Variable Hobj : forall fs, Forall (fun kv => P (snd kv)) fs -> P (JObj fs).
+  Variable Harr : forall es, Forall P es -> P (JArr es).
   Fixpoint json_ind' (j : json) : P j :=
     match j with
     | JNum q => Hnum q
